@@ -380,8 +380,10 @@ class BlockCode(BlockToken):
         trailing_blanks = 0
         for line in lines:
             if line.strip() == '':
-                line_buffer.append(line.lstrip(' ') if len(line) < 5 else line[4:])
-                trailing_blanks = trailing_blanks + 1 if line == '\n' else 0
+                # a blank line loses the block's indentation like any other line; what it holds beyond that is kept
+                stripped = cls.strip(line)
+                line_buffer.append(stripped if stripped != line else '\n')
+                trailing_blanks += 1
                 continue
             if not line.replace('\t', '    ', 1).startswith('    '):
                 lines.backstep()
